@@ -138,13 +138,13 @@ def ready(pid):
 def main():
     import sys
     claimed = [a for a in sys.argv[1:]]
-    hooks_commits = ["b44e0a5"]
+    hooks_commits = ["b44e0a5", "7f51ee8"]
     m = {
         "version": 1,
         "setup_cmd": "./setup.sh",
         "hooks": {
             "guard": "verif",
-            "enable": "go build -tags verif ./...  (only derive/verif_hooks.go carries the tag; used by the in-process T3 driver)",
+            "enable": "go build -tags verif ./...  (only derive/verif_hooks.go and derive/verif_hooks_order.go carry the tag; used by the in-process T3 driver)",
             "baseline_off_cmd": "cd /repo && go test -mod=mod -json -vet=off -count=1 -timeout 25m ./...",
             "source_commits": hooks_commits,
             "add_only": True,
